@@ -13,13 +13,15 @@ def main():
     cfg = gen_config()
     res = Result(PID)
     T = tier()
-    N, K = (8, 5) if T == "quick" else (10, 7)
+    N, K = (8, 5) if T == "quick" else (11, 7)
     shapes = trees.rb_trees_upto(N)
     inst = [("step", s, op) for s in shapes for op in ("insert", "remove", "search") if not (s is None and op == "remove")]
+    if T == "quick":        # the deepest removal fix-up cases need 9+ nodes: remove only, from every valid tree with 9 or 10 nodes
+        inst += [("step", s, "remove") for s in trees.rb_trees_upto(10) if trees.size(s) > N]
     hist = [("hist", s) for s in treecheck.op_strings(K)]
     res.functions.update(["a_rbt_insert", "a_rbt_insert_adjust", "a_rbt_remove", "a_rbt_remove_adjust", "a_rbt_set_parents",
                           "a_rbt_set_parent_color", "a_rbt_set_parent", "a_rbt_search", "a_rbt_init", "a_rbt_parent"])
-    res.bounds = {"inductive step": "one insert / remove / search with symbolic key or victim from every valid red-black tree with <= %d nodes (%d trees), keys symbolic under the in-order strict order" % (N, len(shapes)),
+    res.bounds = {"inductive step": "one insert / remove / search with symbolic key or victim from every valid red-black tree with <= %d nodes (%d trees), keys symbolic under the in-order strict order%s" % (N, len(shapes), "; remove additionally from every valid tree with 9 or 10 nodes" if T == "quick" else ""),
                   "histories": "all %d insert/remove patterns of length %d from the empty tree; keys and victims symbolic" % (len(hist), K),
                   "configuration": "A_SIZE_POINTER == 8 (packed parent word, bit 0 = colour)"}
     res.outside = ["pre-states with more than %d nodes" % N, "the unpacked struct variant", "comparison callbacks that are not a strict weak order",
